@@ -383,6 +383,7 @@ func registerEnv(e *Engine) {
 	registerProm(e)
 	registerJSON(e)
 	registerElection(e)
+	registerSkiplist(e)
 	e.reg("time.Now", func(in *interp, fr *frame, a []value) value { return in.now() })
 	e.reg("time.Since", func(in *interp, fr *frame, a []value) value {
 		n := in.now().(structure)
@@ -878,4 +879,179 @@ func registerElection(e *Engine) {
 		}
 		return nil
 	})
+}
+
+// ---------------- github.com/huandu/skiplist model (memkv's engine) ----------------
+//
+// A SkipList is a sorted sequence of real *skiplist.Element objects (the adapter reads
+// elem.Value directly). Keys are byte slices; comparisons go through the solver.
+
+const sklPkg = "github.com/huandu/skiplist"
+
+type sklModel struct {
+	elems []*value // pointers to Element structures, sorted by key
+}
+
+func (in *interp) sklOf(p *value) *sklModel {
+	if in.skls == nil {
+		in.skls = map[*value]*sklModel{}
+	}
+	m := in.skls[p]
+	if m == nil {
+		m = &sklModel{}
+		in.skls[p] = m
+	}
+	return m
+}
+
+func (in *interp) sklKey(e *value) []*sym.Term {
+	k := (*e).(structure)[in.eng.sklKeyField].(iface)
+	sl, _ := k.v.([]value)
+	return in.sliceBytes(sl)
+}
+
+// sklFind returns the index of the first element with key >= k and whether it equals k.
+func (in *interp) sklFind(m *sklModel, k []*sym.Term) (int, bool) {
+	for i, e := range m.elems {
+		ek := in.sklKey(e)
+		if in.r.branch(in.bytesEq(ek, k), "skiplist-eq") {
+			return i, true
+		}
+		if in.r.branch(in.bytesLt(k, ek), "skiplist-lt") {
+			return i, false
+		}
+	}
+	return len(m.elems), false
+}
+
+func registerSkiplist(e *Engine) {
+	et := e.namedTypeOrNil(sklPkg, "Element")
+	if et == nil {
+		return
+	}
+	st := et.Underlying().(*types.Struct)
+	for i := 0; i < st.NumFields(); i++ {
+		switch st.Field(i).Name() {
+		case "Value":
+			e.sklValueField = i
+		case "key":
+			e.sklKeyField = i
+		case "list":
+			e.sklListField = i
+		}
+	}
+	keyBytes := func(in *interp, v value) []*sym.Term {
+		sl, _ := v.(iface).v.([]value)
+		return in.sliceBytes(sl)
+	}
+	e.reg(sklPkg+".New", func(in *interp, fr *frame, a []value) value {
+		var v value = in.zero(in.eng.namedType(sklPkg, "SkipList"))
+		p := &v
+		in.sklOf(p)
+		return p
+	})
+	e.reg("(*"+sklPkg+".SkipList).Get", func(in *interp, fr *frame, a []value) value {
+		p := a[0].(*value)
+		in.onRead(p)
+		m := in.sklOf(p)
+		i, ok := in.sklFind(m, keyBytes(in, a[1]))
+		if !ok {
+			return (*value)(nil)
+		}
+		return m.elems[i]
+	})
+	e.reg("(*"+sklPkg+".SkipList).Set", func(in *interp, fr *frame, a []value) value {
+		p := a[0].(*value)
+		in.onWrite(p)
+		m := in.sklOf(p)
+		i, ok := in.sklFind(m, keyBytes(in, a[1]))
+		if ok {
+			(*m.elems[i]).(structure)[in.eng.sklValueField] = a[2]
+			return m.elems[i]
+		}
+		var ev value = in.zero(in.eng.namedType(sklPkg, "Element"))
+		el := &ev
+		s := ev.(structure)
+		s[in.eng.sklValueField] = a[2]
+		s[in.eng.sklKeyField] = a[1]
+		s[in.eng.sklListField] = p
+		m.elems = append(m.elems, nil)
+		copy(m.elems[i+1:], m.elems[i:])
+		m.elems[i] = el
+		return el
+	})
+	e.reg("(*"+sklPkg+".SkipList).Remove", func(in *interp, fr *frame, a []value) value {
+		p := a[0].(*value)
+		in.onWrite(p)
+		m := in.sklOf(p)
+		i, ok := in.sklFind(m, keyBytes(in, a[1]))
+		if !ok {
+			return (*value)(nil)
+		}
+		el := m.elems[i]
+		m.elems = append(m.elems[:i:i], m.elems[i+1:]...)
+		(*el).(structure)[in.eng.sklListField] = (*value)(nil)
+		return el
+	})
+	e.reg("(*"+sklPkg+".SkipList).RemoveElement", func(in *interp, fr *frame, a []value) value {
+		p := a[0].(*value)
+		in.onWrite(p)
+		m := in.sklOf(p)
+		el := a[1].(*value)
+		for i, x := range m.elems {
+			if x == el {
+				m.elems = append(m.elems[:i:i], m.elems[i+1:]...)
+				(*el).(structure)[in.eng.sklListField] = (*value)(nil)
+				break
+			}
+		}
+		return nil
+	})
+	e.reg("(*"+sklPkg+".SkipList).Len", func(in *interp, fr *frame, a []value) value {
+		return in.mkInt(len(in.sklOf(a[0].(*value)).elems))
+	})
+	e.reg("(*"+sklPkg+".SkipList).Front", func(in *interp, fr *frame, a []value) value {
+		m := in.sklOf(a[0].(*value))
+		if len(m.elems) == 0 {
+			return (*value)(nil)
+		}
+		return m.elems[0]
+	})
+	step := func(d int) func(in *interp, fr *frame, a []value) value {
+		return func(in *interp, fr *frame, a []value) value {
+			el := a[0].(*value)
+			lp, _ := (*el).(structure)[in.eng.sklListField].(*value)
+			if lp == nil {
+				return (*value)(nil)
+			}
+			in.onRead(lp)
+			m := in.sklOf(lp)
+			for i, x := range m.elems {
+				if x == el {
+					j := i + d
+					if j < 0 || j >= len(m.elems) {
+						return (*value)(nil)
+					}
+					return m.elems[j]
+				}
+			}
+			return (*value)(nil)
+		}
+	}
+	e.reg("(*"+sklPkg+".Element).Next", step(1))
+	e.reg("(*"+sklPkg+".Element).Prev", step(-1))
+	e.reg("(*"+sklPkg+".Element).Key", func(in *interp, fr *frame, a []value) value {
+		return (*a[0].(*value)).(structure)[in.eng.sklKeyField]
+	})
+}
+
+func (e *Engine) namedTypeOrNil(pkg, name string) types.Type {
+	for _, p := range e.Prog.AllPackages() {
+		if p.Pkg.Path() == pkg {
+			if t := p.Type(name); t != nil {
+				return t.Type()
+			}
+		}
+	}
+	return nil
 }
